@@ -1,0 +1,5 @@
+//go:build !verif
+
+package operator
+
+func verifRetuneTimers(*Operator, []string) {}
